@@ -39,8 +39,8 @@ CHECKS["C08"] = dict(
 CHECKS["C04"] = dict(
     category="proof",
     text="Shape.rotate_translate_local, occupancy_shape_from_state (exact branch, incl. point-mass heading), the initial-occupancy invariant of obstacles, occupancy_at_time / state_at_time of static, dynamic (trajectory, set-based, no prediction), phantom and environment obstacles for a symbolic integer time step (before / at / inside / after the horizon), and the scenario-level queries (occupancies_at_time_step per role, obstacle_states_at_time_step, obstacles_by_role_and_type, obstacles_by_position_intervals) are executed symbolically from the real source; the four-way case split of the property is the postcondition, discharged by z3 for all time steps and coordinates. Trajectory / occupancy-set lengths are fixed small (2-3).",
-    note="uncertain-state enclosure (region / angle-interval states) is NOT decided deductively (trigonometric inclusion) - not covered by this check; Polygon.rotate_translate_local (shapely centroid rotation) is outside the model; floats are reals; list lengths fixed small",
-    technique="deductive: AST symbolic execution of real source + sidecar contracts, VCs discharged by z3",
+    note="the uncertain-state enclosure clause (region / angle-interval states) is NOT proved: its argument needs monotonicity of l*cos(d)+w*sin(d), beyond the sin/cos model. It is checked BOUNDED (labelled so in the evidence, never counted as discharged): occupancy_shape_from_state run natively on 973 (shape, position region, orientation / interval) cases x fixed admissible samples (corners, edge midpoints, centre, interval ends and interior, seeded random points), every boundary point of the placed shape tested against the returned region. Two known findings from it (asymmetric Polygon shape / asymmetric Polygon position region are not enclosed). Polygon.rotate_translate_local (shapely centroid rotation) is outside the model; floats are reals; list lengths fixed small",
+    technique="deductive: AST symbolic execution of real source + sidecar contracts, VCs discharged by z3; enclosure clause: bounded native contract evaluation on a stated grid",
     design_ref="5/C04",
 )
 CHECKS["C11"] = dict(
